@@ -188,3 +188,10 @@ package contracts
 //@   ensures pool[buf#arr] == 2
 //@   ensures forall a int :: a != buf#arr ==> pool[a] == old(pool[a])
 //@   modifies pool
+//@
+//@ extern (*syscall.Iovec).SetLen
+//@   params iov length
+//@   note syscall: iov.Len = uint64(length)
+//@   requires iov != nil
+//@   ensures iov.Len == length && (forall x *syscall.Iovec :: x != iov ==> x.Len == old(x.Len))
+//@   modifies syscall.Iovec.Len
